@@ -8,3 +8,87 @@ META = {
     ],
 }
 SANITY_TARGET = "codemodder.llm.setup_azure_llama_llm_client"
+
+
+def run_status_family(tier="quick", seed=0):
+    """BOUNDED stand-in: the REAL codemodder.run in-process on a small family of argument vectors; the exit status (return value or
+    SystemExit code) is compared with the documented status of the first applicable condition, and `report written => status 0`.
+    Complements the deductive contract of `run`, whose callees (argparse, logging helpers, iterators) are assumed contracts."""
+    import contextlib
+    import io
+    import json
+    import logging
+    import os
+    import shutil
+    import tempfile
+    from codemodder.codemodder import run
+    root = tempfile.mkdtemp(prefix="pyvc_c20_")
+    proj = os.path.join(root, "proj")
+    os.makedirs(proj)
+    open(os.path.join(proj, "a.py"), "w").write("x = sum([i for i in range(3)])\n")
+    sarif = os.path.join(root, "s.sarif")
+    json.dump({"runs": [{"tool": {"driver": {"name": "Semgrep OSS"}}, "results": []}]}, open(sarif, "w"))
+    sarif2 = os.path.join(root, "s2.sarif")
+    shutil.copy(sarif, sarif2)
+    out = os.path.join(root, "out.codetf")
+    inc = ["--codemod-include", "pixee:python/use-generator"]
+    cases = [
+        ("missing target directory", [os.path.join(root, "nope"), "--output", out] + inc, 1),
+        ("empty directory operand", ["", "--output", out] + inc, 1),
+        ("completed dry run", [proj, "--output", out, "--dry-run"] + inc, 0),
+        ("completed dry run, verbose", [proj, "--output", out, "--dry-run", "--verbose"] + inc, 0),
+        ("report into a missing directory", [proj, "--output", os.path.join(root, "no", "dir", "o.codetf"), "--dry-run"] + inc, 2),
+        ("report path is a directory", [proj, "--output", root, "--dry-run"] + inc, 2),
+        ("missing sonar issues file", [proj, "--output", out, "--dry-run", "--sonar-issues-json", os.path.join(root, "none.json")] + inc, 1),
+        ("missing sonar issues file, verbose", [proj, "--output", out, "--dry-run", "--verbose", "--sonar-issues-json", os.path.join(root, "none.json")] + inc, 1),
+        ("missing sonar hotspots file, verbose", [proj, "--output", out, "--dry-run", "--verbose", "--sonar-hotspots-json", os.path.join(root, "none.json")] + inc, 1),
+        ("missing sarif file", [proj, "--output", out, "--dry-run", "--sarif", os.path.join(root, "none.sarif")] + inc, 1),
+        ("two sarif files of one tool", [proj, "--output", out, "--dry-run", "--sarif", sarif + "," + sarif2] + inc, 1),
+        ("unknown option", [proj, "--output", out, "--no-such-option"], 3),
+        ("include and exclude together", [proj, "--output", out, "--codemod-include", "a", "--codemod-exclude", "b"], 3),
+        ("--version", ["--version"], 0),
+        ("--list", ["--list"], 0),
+    ]
+    evals, bad = 0, None
+    cwd = os.getcwd()
+    try:
+        os.chdir(root)
+        for label, argv, want in cases:
+            if os.path.exists(out):
+                os.unlink(out)
+            # every case configures logging afresh, as a new process would (logging.basicConfig is a no-op once handlers exist)
+            rootlog = logging.getLogger()
+            for h in list(rootlog.handlers):
+                rootlog.removeHandler(h)
+            rootlog.setLevel(logging.WARNING)
+            try:
+                with contextlib.redirect_stdout(io.StringIO()), contextlib.redirect_stderr(io.StringIO()):
+                    got = run(list(argv))
+            except SystemExit as e:
+                got = e.code if isinstance(e.code, int) else (0 if e.code is None else 1)
+            except BaseException as e:      # noqa
+                got = f"raised {type(e).__name__}: {e}"
+            evals += 1
+            written = os.path.exists(out) and os.path.getsize(out) > 0
+            w = None
+            if got != want:
+                w = {"case": label, "argv": argv, "status": got, "documented": want}
+            elif written and got != 0:
+                w = {"case": label, "argv": argv, "status": got, "clause": "a non-zero status is never returned for a run whose report was written"}
+            if w is not None and bad is None:
+                bad = w
+    finally:
+        os.chdir(cwd)
+        for h in list(logging.getLogger().handlers) + list(logging.getLogger('codemodder').handlers):
+            pass
+        shutil.rmtree(root, ignore_errors=True)
+    return {"kind": "bounded", "id": "bounded:exit status of the real run on a family of argument vectors", "status": "refuted" if bad else "discharged",
+            "bound": f"{len(cases)} argument vectors (missing/empty target, missing result files with and without --verbose, duplicate SARIF tool, unwritable report, "
+                     "invalid/conflicting options, --version/--list)", "evaluations": evals, "witness": bad, "func": "codemodder.codemodder.run",
+            "reason": "" if not bad else f"case '{bad.get('case')}': exit status {bad.get('status')} instead of the documented one",
+            "replay": {"reproduced": True, "detail": json.dumps(bad, default=str)} if bad else None,
+            "clause": "exit status == documented status of the first applicable condition; report written => 0"}
+
+
+def extra_checks(tier="quick", seed=0):
+    return [run_status_family(tier, seed)]
